@@ -81,3 +81,31 @@ check('C12',
       'RAMEmitter/orjson path runs with values concretised by forking.',
       'integer time and emit_step; quantities outside; structural histories '
       'not in this harness')
+check('C06',
+      'A topology generator driven by solver-decided choices (dict / scalar / '
+      '_path-dictionary / glob ports x 7 wirings with ".." at several '
+      'positions x process depth) produces every combination within the bound; '
+      'initial values and updates are symbolic, an independent lexical '
+      'resolver names the target node, and the solver shows read = initial '
+      'value and final = initial + sum of all colliding updates, with every '
+      'other node keeping identity and value.',
+      'accumulate updater; ill-formed combinations (leaf that is also a '
+      'branch) skipped and counted; "**" and _reduce outside')
+check('C08',
+      'Updater functions run on symbolic integers and on dictionaries with '
+      'symbolic presence bits and values against oracles written from the '
+      'statement; through Store.apply_update at depth 0..2: declared updater, '
+      '_updater override, user function, _multi_update order, identity of '
+      'untouched nodes, update not mutated - all solver-decided for every '
+      'value in range. Units are checked on solver-chosen unit combinations '
+      'with concrete magnitudes.',
+      'integers; float kernels via the kernel translator; pint magnitude '
+      'arithmetic and numpy arrays concrete')
+check('C09',
+      'One inductive step from generated valid pre-states (1-2 agents, nested '
+      'compartment, steps/derivers, symbolic values) for 12 single and '
+      'combined operations applied through the engine; the solver shows the '
+      'named effect and the frame (identity and value of every other node); '
+      'thorough re-applies a second arbitrary operation to the post-state.',
+      'pre-state generator bounds; exceptions raised by the engine\'s own '
+      'bookkeeping are C10\'s (counted as cut_foreign_exception)')
